@@ -6,6 +6,7 @@ import (
 	"errors"
 	"fmt"
 	"io"
+	"net"
 	"os"
 	"runtime"
 	"sync"
@@ -64,7 +65,8 @@ type s1end struct {
 	fdBase   int
 }
 
-var errSimClosed = errors.New("use of closed network connection (sim)")
+// what the real net package reports after a local Close (callers may test for net.ErrClosed)
+var errSimClosed = fmt.Errorf("read/write on simulated socket: %w", net.ErrClosed)
 
 func (e *s1end) SimSend(b []byte, m unixsocket.Msg) error {
 	w := e.w
